@@ -109,7 +109,7 @@ type c02Script struct {
 }
 
 var (
-	c02Hooks  = []string{"redis.client.send.before_enqueue", "redis.client.write.after_dequeue", "redis.client.write.before_handoff", "redis.session.read.before_enqueue", "redis.session.write.before_wait"}
+	c02Hooks  = []string{"redis.client.send.before_enqueue", "redis.client.write.after_dequeue", "redis.client.write.before_handoff", "redis.session.read.before_enqueue", "redis.session.write.before_wait", "redis.upstream.ask.between"}
 	c02Faults = []string{"reset-conn", "fin-conn", "host-remove", "host-replace", "client-closes"}
 	c02Class  = []string{"simple", "mget-child", "ask-redirected"}
 )
@@ -175,7 +175,7 @@ func (e *c02Env) canaries() bool {
 		if err == nil {
 			ok := true
 			for _, args := range [][]string{{"PING"}, {"SET", e.ka[0], "c"}, {"SET", e.kb[0], "c"}} {
-				v, err := c.DoS(5*time.Second, args...)
+				v, err := c.DoS(2*time.Second, args...)
 				if err != nil || v.Kind == resp.Error {
 					ok = false
 				}
@@ -190,7 +190,9 @@ func (e *c02Env) canaries() bool {
 	return false
 }
 
-// stuckInWait takes two goroutine dumps 300 ms apart and reports whether a session writer sits in rawRequest.Wait in both.
+// stuckInWait takes two goroutine dumps 300 ms apart and reports whether a session writer is parked in both (the decisive evidence
+// for a lost request is the canaries: the backend connections are FIFO, so a request that is still unanswered after fresh requests
+// through the same backends completed is not merely slow).
 func (e *c02Env) stuckInWait() (bool, string) {
 	g1, err1 := e.s.Goroutines()
 	time.Sleep(300 * time.Millisecond)
@@ -198,8 +200,11 @@ func (e *c02Env) stuckInWait() (bool, string) {
 	if err1 != nil || err2 != nil {
 		return false, ""
 	}
-	if strings.Contains(g1, "(*rawRequest).Wait") && strings.Contains(g2, "(*rawRequest).Wait") {
-		return true, extractStacks(g2, "(*rawRequest).Wait", 2)
+	// the session writer waits for the head request either in rawRequest.Wait or (newer code) in a select inside loopWrite
+	for _, frame := range []string{"(*rawRequest).Wait", "redis.(*session).loopWrite"} {
+		if strings.Contains(g1, frame) && strings.Contains(g2, frame) {
+			return true, extractStacks(g2, frame, 2)
+		}
 	}
 	return false, ""
 }
@@ -264,6 +269,9 @@ func (e *c02Env) runScript(sc c02Script, rep int) (string, map[string]interface{
 		atomic.StoreInt32(&e.a.Silent, 1)
 		defer atomic.StoreInt32(&e.a.Silent, 0)
 	}
+	if sc.Hook == "redis.upstream.ask.between" {
+		skip = 0
+	}
 	if sc.Class == "ask-redirected" && strings.HasPrefix(sc.Hook, "redis.client.") {
 		// passages of b's client come first (the command is sent to b, which answers ASK)
 		if sc.Hook == "redis.client.send.before_enqueue" {
@@ -297,11 +305,11 @@ func (e *c02Env) runScript(sc c02Script, rep int) (string, map[string]interface{
 		time.Sleep(40 * time.Millisecond)
 	case "host-remove":
 		bg.Add(1)
-		go func() { defer bg.Done(); e.s.HostOp("host_remove", e.svc.Name, hosts[:1]) }() // may block until the held goroutine is released
+		go func() { defer bg.Done(); e.s.Op(8*time.Second, "host_remove", e.svc.Name, map[string]interface{}{"hosts": hosts[:1]}) }() // may block until the held goroutine is released
 		time.Sleep(60 * time.Millisecond)
 	case "host-replace":
 		bg.Add(1)
-		go func() { defer bg.Done(); e.s.HostOp("host_replace", e.svc.Name, hosts) }()
+		go func() { defer bg.Done(); e.s.Op(8*time.Second, "host_replace", e.svc.Name, map[string]interface{}{"hosts": hosts}) }()
 		time.Sleep(60 * time.Millisecond)
 	case "client-closes":
 		conn.Close()
@@ -342,6 +350,15 @@ func (e *c02Env) runScript(sc c02Script, rep int) (string, map[string]interface{
 		return "connection-closed", w
 	}
 	if !e.canaries() {
+		// nothing is served any more: a wedge if the process is alive and the same goroutines are parked in two dumps
+		if e.s.Alive() {
+			if stuck, stacks := e.stuckInWait(); stuck {
+				g, _ := e.s.Goroutines()
+				w["stuck_goroutines"] = stacks
+				w["lock_waiters"] = extractStacks(g, "sync.(*Mutex).Lock", 4)
+				return "wedged", w
+			}
+		}
 		return "inconclusive", w
 	}
 	if v, err := conn.Read(2 * time.Second); err == nil {
@@ -380,16 +397,20 @@ func c02(r *ev.Run) {
 		return true
 	}
 	nscripts := 0
+	wedges := 0
 	for _, hook := range c02Hooks {
 		for _, fault := range c02Faults {
 			for _, class := range c02Class {
-				if r.Tier != "thorough" && class == "ask-redirected" && (fault == "fin-conn" || fault == "host-replace") {
+				if hook == "redis.upstream.ask.between" && class != "ask-redirected" {
+					continue
+				}
+				if r.Tier != "thorough" && class == "ask-redirected" && hook != "redis.upstream.ask.between" && (fault == "fin-conn" || fault == "host-replace") {
 					continue
 				}
 				sc := c02Script{Hook: hook, Fault: fault, Class: class}
 				reached := false
 				for rep := 0; rep < reps; rep++ {
-					if r.Violations() >= 6 {
+					if r.Violations() >= 6 || wedges >= 2 {
 						break // enough witnesses; every further loss costs a restart and several deadlines
 					}
 					out, w := e.runScript(sc, rep)
@@ -413,6 +434,7 @@ func c02(r *ev.Run) {
 						}
 					case "wedged":
 						r.Violation(fmt.Sprintf("C02:wedged:%s:%s", strings.TrimPrefix(hook, "redis."), fault), "after the script the proxy no longer serves canaries", w)
+						wedges++
 						if !restart() {
 							return
 						}
@@ -664,6 +686,13 @@ func c02Stress(r *ev.Run) {
 		close(stopFaults)
 		fwg.Wait()
 		s.HookReleaseAll()
+		// heal: no node is silent or deaf any more, and connections that swallowed requests are closed (a hung server
+		// connection keeps its requests pending by design; the property is about what happens once backends are back)
+		for _, n := range cl.Nodes {
+			atomic.StoreInt32(&n.Silent, 0)
+			atomic.StoreInt32(&n.StopReading, 0)
+			n.KillConns(false)
+		}
 		r.Count("stress_requests_sent", atomic.LoadInt64(&sent))
 		r.Count("stress_replies_received", atomic.LoadInt64(&got))
 		if !s.Alive() {
@@ -730,13 +759,18 @@ func c02FilteredAfterPending(r *ev.Run) {
 		return
 	}
 	ka := keysFor(cl, cl.Nodes[0], 10, "fk")
-	reps := 6
+	reps := 8
 	if r.Tier == "thorough" {
 		reps = 40
 	}
 	for rep := 0; rep < reps; rep++ {
 		conn, err := svc.Dial()
 		if err != nil {
+			time.Sleep(300 * time.Millisecond)
+			if !s.Alive() {
+				r.Violation("C02:died:"+crashClass(s.CrashLine()), "the proxy died: "+s.CrashLine(), map[string]interface{}{"script": "filtered-after-pending", "log_tail": s.LogTail(3000)})
+				return
+			}
 			r.Internal("dial: %v", err)
 			return
 		}
@@ -746,6 +780,11 @@ func c02FilteredAfterPending(r *ev.Run) {
 		banned := []string{"APPEND", "SETRANGE", "GETBIT"}[rep%3]
 		conn.C.Write(append(resp.CmdS("GET", ka[1+rep%8]), resp.CmdS(banned, ka[1+rep%8], "1", "x")...))
 		parked := s.WaitParked("redis.client.write.after_dequeue", 1, 2*time.Second)
+		withReset := rep%2 == 1
+		if withReset {
+			// the flush that follows the filtered request hits a connection that is already gone
+			cl.Nodes[0].KillConns(true)
+		}
 		time.Sleep(30 * time.Millisecond)
 		s.HookRelease("redis.client.write.after_dequeue")
 		if !parked {
@@ -754,6 +793,14 @@ func c02FilteredAfterPending(r *ev.Run) {
 			continue
 		}
 		v1, err1 := conn.Read(3 * time.Second)
+		if err1 != nil && !rclient.IsTimeout(err1) {
+			time.Sleep(300 * time.Millisecond) // a dying process closes its connections before it is reaped
+		}
+		if !s.Alive() {
+			time.Sleep(100 * time.Millisecond)
+			r.Violation("C02:died:"+crashClass(s.CrashLine()), "the proxy died: "+s.CrashLine(), map[string]interface{}{"script": "filtered-after-pending", "backend_reset_before_flush": withReset, "log_tail": s.LogTail(3000)})
+			return
+		}
 		if err1 == nil {
 			v2, err2 := conn.Read(3 * time.Second)
 			if err2 != nil || v2.Kind != resp.Error {
@@ -772,7 +819,7 @@ func c02FilteredAfterPending(r *ev.Run) {
 			r.Inconclusive("filtered-after-pending-conn-error")
 		}
 		conn.Close()
-		r.Case("script/filtered-after-pending/" + banned)
+		r.Case(fmt.Sprintf("script/filtered-after-pending/%s/reset=%v", banned, withReset))
 	}
 }
 
